@@ -15,6 +15,32 @@ LEAKS = [("core::mem", ("forget",)), ("core::mem::manually_drop", ("ManuallyDrop
          ("alloc::sync", ("Arc::into_raw", "Arc::increment_strong_count", "Weak::into_raw")), ("alloc::rc", ("Rc::into_raw",))]
 
 
+def keepalive_roles(F):
+    """the keep-alive types of the crate by shape (pub(crate) items: their names and module are private detail):
+    guard = the struct holding `Arc<Mutex<Option<Box<dyn ..>>>>`, release-all = the struct holding the `Weak` of the same,
+    owner = the struct holding both the shared `Arc<UnsafeCell<T>>` and a guard"""
+    c_ = getattr(F, "_ka_roles", None)
+    if c_ is None:
+        guard, relall, owner = set(), set(), set()
+        for d, a in F.adts.items():
+            if a["crate"] != MQ or len(a["variants"]) != 1:
+                continue
+            tys = [f["ty"] for f in a["variants"][0]["fields"]]
+            boxed = lambda t: "Mutex<core::option::Option<alloc::boxed::Box<" in t and "dyn " in t
+            if len(tys) == 1 and tys[0].startswith("alloc::sync::Arc<") and boxed(tys[0]):
+                guard.add(d)
+            if len(tys) == 1 and tys[0].startswith("alloc::sync::Weak<") and boxed(tys[0]):
+                relall.add(d)
+        for d, a in F.adts.items():
+            if a["crate"] == MQ and len(a["variants"]) == 1:
+                tys = [f["ty"] for f in a["variants"][0]["fields"]]
+                if any("Arc<core::cell::UnsafeCell<" in t for t in tys) and any(t in guard for t in tys):
+                    owner.add(d)
+        c_ = {"guard": guard, "release_all": relall, "owner": owner}
+        F._ka_roles = c_
+    return c_
+
+
 def is_take(F, c):
     """moving a value out of its owner and leaving an empty state behind: Option::take, mem::take / mem::replace, or a private
     `fn take(&mut self) -> Self` of a state enum that is exactly such a replace of `*self`"""
@@ -145,8 +171,17 @@ def run(ctx):
                 for sb in local_callee_bodies(F, x):
                     if sb.crate == MQ:
                         cls += list(F.closures_of(sb))
-        ctx.check(any(any(x.is_("core::mem::drop") for x in cb.calls()) or cb.blocks for cb in cls) and bool(cls), "R06.2", fnkey(b) + "#clone-owned-by-guard-closure", loc(b, c.bb), "the cell clone is not moved into the guard closure")
-    guard_adts = [a for a in F.adts.values() if a["crate"] == MQ and a["def"].endswith("keep_alive::Guard")]
+        # ... or it is stored in a private struct that is boxed as the guard's type-erased release object (`Box<dyn KeepAlive>`)
+        boxed_obj = False
+        for i_ in b.live_blocks():
+            for s_ in b.stmts(i_):
+                if s_["k"] == "assign" and s_["rv"]["k"] == "agg" and s_["rv"].get("agg") == "adt" and (s_["rv"].get("adt") or "").startswith(MQ + "::") and \
+                        any(any(o[0] in ("call", "via") and o[1] == c.bb for o in prb.operand(op_)) for op_ in s_["rv"]["ops"]):
+                    l_ = s_["lhs"]["l"]
+                    boxed_obj = boxed_obj or any(x.name == "new" and "Box" in x.def_ and x.args and op_local(x.args[0]) == l_ for x in b.calls())
+        ctx.check((any(any(x.is_("core::mem::drop") for x in cb.calls()) or cb.blocks for cb in cls) and bool(cls)) or boxed_obj, "R06.2", fnkey(b) + "#clone-owned-by-guard-closure", loc(b, c.bb), "the cell clone is not moved into the guard closure")
+    KA = keepalive_roles(F)
+    guard_adts = [a for a in F.adts.values() if a["def"] in KA["guard"]]
     ctx.floor("R06.2", "guard token type", len(guard_adts), 1)
     for ga in guard_adts:
         builds = []
@@ -162,16 +197,19 @@ def run(ctx):
             cloned = any(b.term(x[1])["callee"]["name"] == "clone" and "Arc<" in (b.term(x[1])["callee"].get("self_ty") or "") for x in cl)
             ctx.check(fresh or cloned, "R06.2", fnkey(b) + "#guard-from-token", loc(b, i), "a Guard is built from something else than a clone of the guard token / the fresh token")
         ctx.floor("R06.2", "Guard construction sites", len(builds), 2)
-        ctx.check(not F.impls_of("core::clone::Clone", "Guard") or all(i["crate"] != MQ or not i["self_head"].get("adt", "").endswith("keep_alive::Guard") for i in F.impls_of("core::clone::Clone", "Guard")),
+        ctx.check(all(i["crate"] != MQ or i["self_head"].get("adt", "") not in KA["guard"] for i in F.impls_of("core::clone::Clone")),
                   "R06.2", ga["def"] + "#not-Clone", "", "Guard implements Clone")
     # DropAll
-    da = [b for b in lib if b.impl and (b.impl.get("trait") or "").endswith("::Drop") and "keep_alive::DropAll" in b.path]
+    da = [b for b in lib if b.impl and (b.impl.get("trait") or "").endswith("::Drop") and (b.impl.get("self_head") or {}).get("adt") in KA["release_all"]]
     ctx.floor("R06.2", "force-flush destructor", len(da), 1)
     for b in da:
         class S(Sim):
             def on_call(self_, t, bb, a, env):
                 c = t.get("callee") or {}
                 if "callee_op" in t or (c.get("name") in ("call_once",) and "FnOnce" in c.get("def", "")):
+                    return [((a[0], a[1] + 1), {})]
+                # the release action as a method of a type-erased object (`shared.release()` on a Box<dyn Trait>)
+                if (c.get("self_ty") or "").startswith(("dyn ", "(dyn ")) and (c.get("def") or "").startswith(MQ + "::"):
                     return [((a[0], a[1] + 1), {})]
                 if c.get("def") == "core::option::Option::<T>::take":
                     return [(("some", a[1]), {"dest": ("v", "Some")}), (("none", a[1]), {"dest": ("v", "None")})]
@@ -202,11 +240,11 @@ def run(ctx):
             dominates(b, up[0].bb, lk[0].bb, dom) if via is None else dominates(b, up[0].bb, via.bb, dom))
         ctx.check(order_ok, "R06.2", fnkey(b) + "#upgrade<lock<take", loc(b), "force-flush destructor does not upgrade, lock, then take")
     dg = [(b, c) for b in lib for c in b.calls() if c.name == "downgrade" and "Arc" in c.def_]
-    builds = [(b, i) for b in lib for i in b.live_blocks() for s in b.stmts(i) if s["k"] == "assign" and s["rv"]["k"] == "agg" and (s["rv"].get("adt") or "").endswith("keep_alive::DropAll")]
+    builds = [(b, i) for b in lib for i in b.live_blocks() for s in b.stmts(i) if s["k"] == "assign" and s["rv"]["k"] == "agg" and (s["rv"].get("adt") or "") in KA["release_all"]]
     for b, i in builds:
         okd = True
         for s_ in b.stmts(i):
-            if s_["k"] == "assign" and s_["rv"]["k"] == "agg" and (s_["rv"].get("adt") or "").endswith("keep_alive::DropAll"):
+            if s_["k"] == "assign" and s_["rv"]["k"] == "agg" and (s_["rv"].get("adt") or "") in KA["release_all"]:
                 o = Prov(b).operand(s_["rv"]["ops"][0])
                 srcs = {(b.term(x[1]).get("callee") or {}).get("name") for x in o if x[0] == "call"}
                 okd = okd and srcs == {"downgrade"}
@@ -225,8 +263,9 @@ def run(ctx):
               "%d library bodies scanned" % len(lib))
     ctx.floor("R06.3", "library bodies scanned", len(lib), 100)
     # ------------------------------------------------------------------ R06.4
-    for nm in ("keep_alive::Parent", "AppendAndCloseOnDrop", "AppendAndCloseOnDropInner"):
-        cl = [i for i in F.impls_of("core::clone::Clone") if i["crate"] == MQ and (i.get("self_head") or {}).get("adt", "").endswith("::" + nm)]
+    for nm in sorted(KA["owner"]) + ["AppendAndCloseOnDrop", "AppendAndCloseOnDropInner"]:
+        cl = [i for i in F.impls_of("core::clone::Clone") if i["crate"] == MQ and ((i.get("self_head") or {}).get("adt", "").endswith("::" + nm) or (i.get("self_head") or {}).get("adt", "") == nm)]
+        nm = nm.split("::", 1)[-1] if nm.startswith(MQ + "::") else nm
         ctx.check(not cl, "R06.4", MQ + "::" + nm + "#not-Clone", "", "%s implements Clone: two owners could append the entry twice" % nm)
     dm = [i for i in F.impls_of("core::ops::deref::DerefMut") if i["crate"] == MQ]
     cell_dm = []
@@ -235,7 +274,7 @@ def run(ctx):
             b = F.bodies.get((MQ, it.get("uid") or it["def"]))
             if b and any(c.name == "get" and "UnsafeCell" in c.def_ for c in b.calls()):
                 cell_dm.append(i)
-    ctx.check(len(cell_dm) == 1 and cell_dm[0]["self_head"]["adt"].endswith("keep_alive::Parent"), "R06.4", MQ + "#only-owner-derefs-mut-to-cell", "",
+    ctx.check(len(cell_dm) == 1 and cell_dm[0]["self_head"]["adt"] in KA["owner"], "R06.4", MQ + "#only-owner-derefs-mut-to-cell", "",
               "mutable access to the shared cell is offered by %s" % [i["self_ty"] for i in cell_dm])
     # compile-fail witnesses (type-level part of the property), discharged by rustc's type checker
     from mq import witness as _w
